@@ -436,6 +436,29 @@ def trait_method_rules(F, R):
     tab = [t for t in TRAIT_RETURNS if t[1] is not None]
     n = table_rules(F, R, tab, "F7.method")
     R.floor("F7", "provided-method formulas compared", n, len(tab) - 1)
+    # no other effects: the exact calls of the in-place entry points
+    CALLS = {
+        r"^flatty_base::traits::FlatUnsized::assign_in_place$": [
+            "FlatUnsized::as_mut_bytes($self)",
+            "flatty_base::emplacer::Emplacer::emplace_unchecked($emplacer, FlatUnsized::as_mut_bytes($self))",
+            "FlatUnsized::from_mut_bytes_unchecked(FlatUnsized::as_mut_bytes($self))"],
+        r"^flatty_base::traits::FlatUnsized::new_in_place$": [
+            "flatty_base::emplacer::Emplacer::emplace($emplacer, $bytes)",
+            "FlatUnsized::from_mut_bytes_unchecked($bytes)"],
+        r"^flatty_base::traits::FlatDefault::default_in_place$": [
+            "flatty_base::traits::FlatDefault::default_emplacer()",
+            "FlatUnsized::new_in_place($bytes, flatty_base::traits::FlatDefault::default_emplacer())"],
+        r"^flatty_base::emplacer::Emplacer::emplace$": [
+            "mem::check_align_and_min_size($bytes)",
+            "flatty_base::emplacer::Emplacer::emplace_unchecked($self, $bytes)"],
+    }
+    for dre, want in CALLS.items():
+        b = F.one(krate="flatty_base", def_re=dre)
+        body = Body(b)
+        got = [canon(body.expr_of_call(t, 0, bb)) for bb, t in body.calls()
+               if not call_matches(body.expr_of_call(t, 0, bb), "Try::branch", "from_residual")]
+        R.ob("F7.no-other-effects", short(b["def"]), "calls", got == want,
+             "%s performs exactly its documented steps and nothing else%s" % (short(b["def"]), "" if got == want else " -- found %s" % got), where=b["span"])
     # closures of validate_all shift by the walker position
     cl = [b for b in F.poly(krate="flatty_base", def_re=r"ValidateIter>::validate_all::\{closure#0\}$")]
     want = ["flatty_base::error::Error::offset($e, iter::DataIter::<'a, D, I>::pos($1.0))"]
